@@ -1,5 +1,5 @@
 import z3
-from llsym import Sym, CxxThrow, Finding, Unsupported, OBJ_SHIFT, mask
+from llsym import Sym, CxxThrow, Finding, Unsupported, PathEnd, OBJ_SHIFT, mask
 
 STR = '_ZNSt7__cxx1112basic_stringIcSt11char_traitsIcESaIcEE'
 I64 = None
@@ -20,6 +20,24 @@ def install(I):
     for n in ('_Znwm', '_Znam', 'malloc', '__cxa_allocate_exception'): M[n] = malloc_
     for n in ('_ZdlPv', '_ZdaPv', 'free', '_ZdlPvm', '_ZdaPvm'): M[n] = free_
     M['__cxa_free_exception'] = lambda I, p: None
+    # std::system_error: category object and constructors are opaque (message text is never the subject)
+    def sys_cat(I):
+        if 'syscat' not in I.gaddrs: I.gaddrs['syscat'] = I.new_obj(8, 'system_category', 'zero')
+        return I.gaddrs['syscat']
+    M['_ZNSt3_V215system_categoryEv'] = sys_cat; M['_ZNSt3_V216generic_categoryEv'] = sys_cat
+    for nme in ('_ZNSt12system_errorC2ESt10error_codePKc', '_ZNSt12system_errorC1ESt10error_codePKc', '_ZNSt12system_errorC2ESt10error_codeRKNSt7__cxx1112basic_stringIcSt11char_traitsIcESaIcEEE',
+                '_ZNSt12system_errorC1ESt10error_codeRKNSt7__cxx1112basic_stringIcSt11char_traitsIcESaIcEEE'):
+        I.overrides['@' + nme] = lambda I, *a: None
+    M['_ZNSt12system_errorD1Ev'] = lambda I, *a: None; M['_ZNSt12system_errorD2Ev'] = lambda I, *a: None
+    # contract checks inside C++ stub models (wrappers/*.cpp): an assumption on the current path
+    def verif_assume(I, c):
+        if isinstance(c, Sym): I.assume_feasible(I.term(c, c.n) != 0)
+        elif not c: raise PathEnd()
+    M['verif_assume'] = verif_assume
+    def errno_location(I):
+        if 'errno' not in I.gaddrs: I.gaddrs['errno'] = I.new_obj(4, 'errno', 'zero')
+        return I.gaddrs['errno']
+    M['__errno_location'] = errno_location
     # function-local statics (single-threaded): guard byte 0 = initialised flag
     def guard_acquire(I, g): return 0 if I.concretize(I.load(g, i8), 'guard') else 1
     def guard_release(I, g): I.store(g, i8, 1)
